@@ -78,10 +78,20 @@ type Analyzer struct {
 	// Impls lists the repo types implementing an interface (dynamic dispatch alternatives).
 	Impls     func(iface types.Type) []types.Type
 	ifaceRecv map[string]Term
+	mapOrigin map[int]Loc
+	// PairedMaps: last path element of a map field -> last path element of its partner field;
+	// the client has verified that both maps of one owner always hold the same key set.
+	PairedMaps map[string]string
+	PairedUsed int
+	nilCmp    map[int]int
+	// NoExternalImpl: for these interfaces only repo implementations are explored.
+	NoExternalImpl func(iface types.Type) bool
 	// Opaque selects repo functions that are not inlined (verified separately as entries).
 	Opaque          func(fn *ssa.Function) bool
 	OpaqueUsed      map[*ssa.Function]int
 	Deadline        time.Time
+	Peel            bool // analyse the first iteration of loops separately (up to PeelDepth inlining levels)
+	PeelDepth       int
 	RangeFuncExempt int
 	allFuncs        map[*ssa.Function]bool
 	live            map[*ssa.Function]*liveInfo
@@ -107,7 +117,7 @@ func New(p *load.Program) *Analyzer {
 		Reach: map[*ssa.Function]bool{}, GoTargets: map[*ssa.Function]bool{}, AssumedTotal: map[string]int{},
 		Analysed: map[*ssa.Function]int{}, MaxSteps: 4_000_000,
 		strBases: map[string]*Base{}, freshObjs: map[int]bool{}, locTypes: map[Loc]types.Type{}, strEq: map[int][2]*Slice{},
-		live: map[*ssa.Function]*liveInfo{}, Track: map[int]bool{}, Stored: map[Loc]bool{}, taint: map[int]map[Loc]bool{}, initTerm: map[Loc]Term{}, ifaceRecv: map[string]Term{}, OpaqueUsed: map[*ssa.Function]int{}, boolSrc: map[int]*BoolSrc{}, sentinelCache: map[*ssa.Global]bool{}, PureHelpers: map[string]bool{}}
+		live: map[*ssa.Function]*liveInfo{}, Track: map[int]bool{}, Stored: map[Loc]bool{}, taint: map[int]map[Loc]bool{}, initTerm: map[Loc]Term{}, ifaceRecv: map[string]Term{}, mapOrigin: map[int]Loc{}, nilCmp: map[int]int{}, OpaqueUsed: map[*ssa.Function]int{}, boolSrc: map[int]*BoolSrc{}, sentinelCache: map[*ssa.Global]bool{}, PureHelpers: map[string]bool{}}
 }
 
 func (a *Analyzer) id() int { a.nextID++; return a.nextID }
@@ -447,6 +457,22 @@ type phiComp struct {
 }
 
 func (a *Analyzer) runLoop(fr *frame, h *ssa.BasicBlock, body map[*ssa.BasicBlock]bool, entries []*State) (exits []flow, rets []retState) {
+	if a.Peel && fr.depth <= a.PeelDepth {
+		// peel the first iteration: it is analysed from the concrete entry state, and the
+		// states that come round the back edge become the entries of the generalised loop
+		// (keeps "initialised during the first iteration" facts such as sync.Once + the field it sets)
+		var second []*State
+		for _, E := range entries {
+			ex, backs, rs := a.runRegion(fr, h, []*State{E}, body, true)
+			exits = append(exits, ex...)
+			rets = append(rets, rs...)
+			second = append(second, backs...)
+		}
+		if len(second) > a.K {
+			second = a.mergeStates(second, nil)
+		}
+		entries = second
+	}
 	for _, E := range entries {
 		ex, rs := a.runLoop1(fr, h, body, E)
 		exits = append(exits, ex...)
@@ -534,10 +560,30 @@ func (a *Analyzer) runLoop1(fr *frame, h *ssa.BasicBlock, body map[*ssa.BasicBlo
 		return Lin{}, false
 	}
 	// subst replaces the α atoms of l by the values the φ-nodes receive on a back edge.
-	subst := func(l Lin, B *State, useEntry bool) (Lin, bool) {
+	var subst func(l Lin, B *State, useEntry bool) (Lin, bool)
+	subst = func(l Lin, B *State, useEntry bool) (Lin, bool) {
 		out := Const(l.C)
 		for _, t := range l.Ts {
 			rep := AtomLin(t.A)
+			if t.A.Op == "div" && t.A.Aux > 0 && len(t.A.Args) == 1 {
+				// quotient of a loop-carried value: recompute it for the substituted argument
+				if arg, ok := t.A.Args[0].(Int); ok {
+					na, ok := subst(arg.L, B, useEntry)
+					if !ok {
+						return out, false
+					}
+					if !na.Equal(arg.L) {
+						S := B
+						if useEntry {
+							S = E
+						}
+						if S == nil || !S.Cons.EntailsGE(na) {
+							return out, false
+						}
+						rep = a.divTerm(S, na, t.A.Aux, nil)
+					}
+				}
+			}
 			for _, c := range comps {
 				if c.alpha == t.A {
 					if useEntry {
@@ -661,7 +707,14 @@ func (a *Analyzer) runLoop1(fr *frame, h *ssa.BasicBlock, body map[*ssa.BasicBlo
 					if v, ok := B.Env[c.phi].(*Slice); !ok || v.Base != c.base {
 						if !c.baseVar {
 							c.baseVar = true
-							c.base = &Base{ID: a.id(), Desc: "φ" + phiName(c.phi)}
+							// a buffer that is fresh on entry and on every back edge stays fresh
+							fresh := c.base != nil && c.base.Fresh
+							for _, B2 := range backs {
+								if v2, ok := B2.Env[c.phi].(*Slice); !ok || !v2.Base.Fresh {
+									fresh = false
+								}
+							}
+							c.base = &Base{ID: a.id(), Desc: "φ" + phiName(c.phi), Fresh: fresh}
 							changed = true
 						}
 						break
@@ -694,6 +747,26 @@ func (a *Analyzer) runLoop1(fr *frame, h *ssa.BasicBlock, body map[*ssa.BasicBlo
 				}
 				if okAll && d != 0 {
 					deltas = append(deltas, delta{c, d})
+				}
+			}
+			// counters advancing by a constant stride d >= 2 keep their residue modulo d:
+			// α - d*(α/d) == e - d*(e/d)
+			for _, dl := range deltas {
+				d := dl.d
+				if d < 2 || d > 16 || dl.c.kind != 0 || !E.Cons.EntailsGE(dl.c.entry) {
+					continue
+				}
+				S0 := E.Clone()
+				S0.AssumeGE(AtomLin(dl.c.alpha))
+				qa := a.divTerm(S0, AtomLin(dl.c.alpha), d, nil)
+				qe := a.divTerm(E, dl.c.entry, d, nil)
+				l := AtomLin(dl.c.alpha).Sub(qa.Scale(d))
+				e := dl.c.entry.Sub(qe.Scale(d))
+				if addCand(l.Sub(e)) {
+					changed = true
+				}
+				if addCand(e.Sub(l)) {
+					changed = true
 				}
 			}
 			for i := 0; i < len(deltas); i++ {
@@ -772,7 +845,7 @@ func (a *Analyzer) runLoop1(fr *frame, h *ssa.BasicBlock, body map[*ssa.BasicBlo
 				bv, ok := B.Heap[loc]
 				if !ok || bv.TKey() != v.TKey() {
 					if _, done := heapVar[loc]; !done {
-						heapVar[loc] = a.havocTerm(loc, v)
+						heapVar[loc] = a.havocTerm(loc, v, bv)
 						a.propagate(heapVar[loc], v, bv)
 						changed = true
 						if debugLoop {
@@ -846,9 +919,20 @@ func (a *Analyzer) runLoop1(fr *frame, h *ssa.BasicBlock, body map[*ssa.BasicBlo
 }
 
 // havocTerm returns an unconstrained value for a heap location whose value changes.
-func (a *Analyzer) havocTerm(loc Loc, old Term) Term {
+func (a *Analyzer) havocTerm(loc Loc, old Term, others ...Term) Term {
+	maybeNil := false
+	for _, x := range append([]Term{old}, others...) {
+		if n := nilness(x); n == nilIs || n == nilMaybe {
+			maybeNil = true
+		}
+	}
 	if t, ok := a.locTypes[loc]; ok {
-		return a.unknownOf(t, "~"+loc.Path, nil)
+		u := a.unknownOf(t, "~"+loc.Path, nil)
+		if maybeNil && isPointerLike(t) {
+			// a location that holds nil on some path stays possibly-nil after generalisation
+			return &Unknown{ID: a.id(), Typ: t, Desc: "~" + prettyPath(loc.Path), Nilness: nilMaybe, Why: "location that holds nil on some path"}
+		}
+		return u
 	}
 	switch v := old.(type) {
 	case Int:
@@ -878,7 +962,114 @@ func phiName(p *ssa.Phi) string {
 
 // mergeStates folds the list into a single state (weak join). extra: per-state extra term
 // (e.g. return value) merged like an env entry; result returned through mergedExtra.
+// selectorGroups partitions states by the values of enum-like heap locations (small integer
+// / boolean / nil-ness constants that differ between the states), so that merging keeps the
+// correlation between such a selector and the other fields.
+func (a *Analyzer) selectorGroups(sts []*State) [][]int {
+	type cand struct {
+		loc  Loc
+		vals map[string]bool
+	}
+	constKey := func(t Term) (string, bool) {
+		switch v := t.(type) {
+		case Int:
+			if v.L.IsConst() {
+				return fmt.Sprintf("i%d", v.L.C), true
+			}
+		case *Bool:
+			if v.Kind == BConst {
+				return fmt.Sprintf("b%v", v.Val), true
+			}
+		case NilT:
+			return "nil", true
+		case *Ptr:
+			if !v.NilUnk {
+				return "nonnil", true
+			}
+		}
+		return "", false
+	}
+	var cands []*cand
+	for loc := range sts[0].Heap {
+		c := &cand{loc: loc, vals: map[string]bool{}}
+		ok := true
+		for _, s := range sts {
+			v, present := s.Heap[loc]
+			if !present {
+				ok = false
+				break
+			}
+			k, isC := constKey(v)
+			if !isC {
+				ok = false
+				break
+			}
+			c.vals[k] = true
+		}
+		if ok && len(c.vals) > 1 && len(c.vals) <= 12 {
+			cands = append(cands, c)
+		}
+	}
+	if len(cands) == 0 {
+		return nil
+	}
+	sort.Slice(cands, func(i, j int) bool {
+		if len(cands[i].vals) != len(cands[j].vals) {
+			return len(cands[i].vals) > len(cands[j].vals)
+		}
+		if cands[i].loc.Obj != cands[j].loc.Obj {
+			return cands[i].loc.Obj < cands[j].loc.Obj
+		}
+		return cands[i].loc.Path < cands[j].loc.Path
+	})
+	if len(cands) > 3 {
+		cands = cands[:3]
+	}
+	groups := map[string][]int{}
+	var order []string
+	for i, s := range sts {
+		var sig []string
+		for _, c := range cands {
+			k, _ := constKey(s.Heap[c.loc])
+			sig = append(sig, k)
+		}
+		key := strings.Join(sig, "|")
+		if _, ok := groups[key]; !ok {
+			order = append(order, key)
+		}
+		groups[key] = append(groups[key], i)
+	}
+	if len(order) < 2 || len(order) > a.K/2 {
+		return nil
+	}
+	var out [][]int
+	for _, k := range order {
+		out = append(out, groups[k])
+	}
+	return out
+}
+
 func (a *Analyzer) mergeStates(sts []*State, extra []Term) []*State {
+	if len(sts) <= 1 {
+		return sts
+	}
+	if extra == nil {
+		if groups := a.selectorGroups(sts); groups != nil {
+			var out []*State
+			for _, g := range groups {
+				sub := make([]*State, len(g))
+				for i, idx := range g {
+					sub[i] = sts[idx]
+				}
+				out = append(out, a.mergeAll(sub, nil)...)
+			}
+			return out
+		}
+	}
+	return a.mergeAll(sts, extra)
+}
+
+func (a *Analyzer) mergeAll(sts []*State, extra []Term) []*State {
 	if len(sts) <= 1 {
 		return sts
 	}
@@ -1112,7 +1303,7 @@ func (a *Analyzer) join2(x, y *State, ex, ey Term) (*State, Term) {
 					out.Heap[k] = True
 					return
 				}
-				out.Heap[k] = a.havocTerm(k, v)
+				out.Heap[k] = a.havocTerm(k, v, NilT{})
 			}
 			return
 		}
